@@ -133,3 +133,14 @@ impl RemoteClient {
         }
     }
 }
+
+#[cfg(feature = "verif")]
+impl RemoteClient {
+    /// The connection's HalfConnection while active (read-only, harness diagnostics).
+    pub fn verif_half_connection(&self) -> Option<&HalfConnection> {
+        match self.state {
+            State::Active(ref state) => Some(&state.half_connection),
+            _ => None,
+        }
+    }
+}
